@@ -693,6 +693,13 @@ def exportFS (pre : Line) (c : Circuit) : FS := fun path =>
   else if path = pre ++ ".scl".toList then some (sclText c)
   else none
 
+/-- prefixes for which the `.aux` file written by `exportIspdAux` leads the reader back to the four data
+files: not empty, no white space (the `.aux` line is split at white space), and either absolute or without
+any directory part (the names in the `.aux` file are the *whole* prefix, which the reader joins to the
+directory of the `.aux` file once more) -/
+def goodPrefix (pre : Line) : Bool :=
+  !pre.isEmpty && pre.all (fun c => !isWs c) && (startsWith "/" pre || !pre.contains '/')
+
 /-! ## `Circuit.write_placement` / `Circuit.load_placement` (Python side) -/
 
 /-- `print(f"{name}\t{x}\t{y}\t: {orient}", file=f)` with `orient += " /FIXED"` for fixed cells -/
